@@ -23,7 +23,8 @@ def shards(tier, seed):
     out = [{'name': f'schema{k}', 'kind': 'schema', 'cases': 7000 if q else 250000, 'budget_s': 50 if q else 600} for k in range(8)]
     out += [{'name': f'inv{k}', 'kind': 'inv', 'k': k, 'n': 6, 'cases': 9000 if q else 10**9, 'budget_s': 50 if q else 600} for k in range(6)]
     out += [{'name': 'seen', 'kind': 'seen', 'budget_s': 60 if q else 600},
-            {'name': 'closure', 'kind': 'closure', 'cases': 6000 if q else 300000, 'budget_s': 50 if q else 600}]
+            {'name': 'closure', 'kind': 'closure', 'cases': 6000 if q else 300000, 'budget_s': 50 if q else 600},
+            {'name': 'repotests', 'kind': 'repotests', 'budget_s': 300}]
     return out
 
 
@@ -136,6 +137,10 @@ def run(spec, R):
     contracts.install_en_contracts()
     rng = shard_rng(ID, spec['seed'], spec['name'])
     kind = spec['kind']
+    if kind == 'repotests':
+        from vlib import repotests
+        repotests.run_repo_tests(R, ['tests/grammar/test_en.py'], lambda: None)
+        return
     atoms = [a for a in gens.en_atoms(feats=(None, 'X', 'nb', 'dcl', 'b', 'em', 'ng', 'pss'), punct=())]
     punct = [('A', p, None) for p in (',', ';', 'conj', '.', ':', 'LRB', 'RRB', 'LQU', 'RQU')]
     if kind == 'schema':
